@@ -63,7 +63,12 @@ LEAVES = {
     "pyint": ("scalar", None, True),
     "S_csr": ("matrix", ("N", "N"), False),
     "S_csc": ("matrix", ("N", "N"), False),
+    "S_dia": ("matrix", ("N", "N"), False),
+    "S_dia2": ("matrix", ("N", "N"), False),
+    "S_coo": ("matrix", ("N", "N"), False),
+    "S_bsr": ("matrix", ("N", "N"), False),
     "spmat": ("matrix", ("N", "N"), True),
+    "spmat_dia": ("matrix", ("N", "N"), True),
     "S_u": ("matrix", ("N", "2N"), False),
     "S_q": ("matrix", ("N", "NF"), False),
     "proj": ("slicer", ("M", "N"), False),
@@ -73,7 +78,7 @@ LEAVES = {
 SCALAR_VALUES = {"Scalar2": 2.0, "ScalarN": -1.5, "pyfloat": 0.5, "pyint": 2}
 
 # reduced leaf alphabet used inside depth-2 programs
-INNER_LEAVES = ["p", "s", "p_rev", "p_rev_t1", "p_first", "u", "p_t1", "p_i2", "dense", "nparr", "tdd", "Scalar2", "pyfloat", "pyint", "S_csr", "spmat", "S_u", "proj", "projlist"]
+INNER_LEAVES = ["p", "s", "p_rev", "p_rev_t1", "p_first", "u", "p_t1", "p_i2", "dense", "nparr", "tdd", "Scalar2", "pyfloat", "pyint", "S_csr", "S_dia", "spmat", "S_u", "proj", "projlist"]
 ELEMENTWISE = ("add", "sub", "mul", "div", "pow")
 
 
@@ -293,6 +298,16 @@ def dense_mat(rows, cols, salt):
     return D
 
 
+def band_mat(n, offsets, salt):
+    D = np.zeros((n, n))
+    for i in range(n):
+        for o in offsets:
+            j = i + o
+            if 0 <= j < n:
+                D[i, j] = 0.5 + 0.25 * ((2 * i + 3 * j + salt) % 5) * (1 if (i + j) % 2 == 0 else -1) + (1.0 if o == 0 else 0.0)
+    return D
+
+
 _CTX = {}
 
 
@@ -384,6 +399,11 @@ class Ctx:
             "spmat": dense_mat(N, N, 2),
             "S_u": dense_mat(N, 2 * N, 3),
             "S_q": dense_mat(N, S["NF"], 4),
+            "S_dia": band_mat(N, (-1, 0, 1), 5),
+            "S_dia2": band_mat(N, (-1, 1), 6),  # zero main diagonal
+            "S_coo": dense_mat(N, N, 7),
+            "S_bsr": dense_mat(N, N, 8),
+            "spmat_dia": band_mat(N, (0, 1), 9),
         }
         M = S["M"]
         # slicers: (domain_indices, range_indices, domain_size, range_size)
@@ -458,6 +478,17 @@ def build(e, ctx):
             return pp.ad.SparseArray(sps.csc_matrix(ctx.mats[name]))
         if name == "spmat":
             return sps.csr_matrix(ctx.mats[name])
+        if name in ("S_dia", "S_dia2"):
+            M = sps.dia_matrix(ctx.mats[name])
+            if M.format != "dia" or not np.array_equal(M.toarray(), ctx.mats[name]):
+                raise RuntimeError("dia leaf not as intended")
+            return pp.ad.SparseArray(M)
+        if name == "spmat_dia":
+            return sps.dia_matrix(ctx.mats[name])
+        if name == "S_coo":
+            return pp.ad.SparseArray(sps.coo_matrix(ctx.mats[name]))
+        if name == "S_bsr":
+            return pp.ad.SparseArray(sps.bsr_matrix(ctx.mats[name]))
         if name in ("proj", "projT"):
             di, ri, ds, rs = ctx.slicers["Pb"]
             P = pp.ad.Projection(domain_indices=di.copy(), range_indices=ri.copy(), domain_size=ds, range_size=rs)
